@@ -245,6 +245,26 @@ def lineage_case(ctx, rng):
         if d1 is not None and (d1.py_get_parent() is not s2 or d2.py_get_parent() is not s2):
             ctx.violation("lineage-pickle/mutual", "daughter of pickled schnitz %d does not point back to it" % i, recipe)
             return
+    # every attribute of a cell state, with every kind of flag value (alive, divided by rule 0 / 1, dead by rule 0 / event 2):
+    # constructed positionally (which validates the parameter -> attribute table of the Lean model), pickled, copied
+    rt = TABLES.get("__reduce__", {}).get("LineageVolumeCellState")
+    for divided, dead in ((-1, -1), (0, -1), (1, -1), (-1, 0), (-1, 2), (1, 1)):
+        vals = {"v0": 1.5, "t0": 0.25, "state": np.array([3.0, 2.0, 5.0]), "volume": 2.0, "time": 1.0, "divided": divided, "dead": dead}
+        c0 = LineageVolumeCellState(*[vals[p_] for p_ in (rt["initParams"] if rt else list(vals))])
+        target = {"v0": "initial_volume", "t0": "initial_time"}
+        g0 = c0.__getstate__()
+        names = rt["getstate"] if rt else []
+        same = lambda u, v: (np.array_equal(u, v) if isinstance(u, np.ndarray) or isinstance(v, np.ndarray) else u == v)
+        if rt and (len(g0) != len(names) or any(not same(g0[names.index(target.get(p_, p_))], vals[p_]) for p_ in vals if target.get(p_, p_) in names)):
+            ctx.broke("translator_C17_init_targets", {"class": "LineageVolumeCellState", "getstate": str(g0), "names": names, "constructed_with": str(vals)})
+        for how2, c2 in (("pickle", pickle.loads(pickle.dumps(c0))), ("deepcopy", copy.deepcopy(c0)), ("pickle of pickle", pickle.loads(pickle.dumps(pickle.loads(pickle.dumps(c0)))))):
+            g2 = c2.__getstate__()
+            ctx.evaluated()
+            if len(g2) != len(g0) or any(not same(u, v) for u, v in zip(g0, g2)):
+                ctx.violation("cellstate-pickle/flags", "a %s of a LineageVolumeCellState (divided=%d, dead=%d) has the data %s, the original %s" % (how2, divided, dead, g2, g0),
+                              dict(recipe, how=how2, divided=divided, dead=dead))
+                return
+        ctx.count("cellstate_flag_combinations")
     cs = LineageVolumeCellState(v0=1.5, t0=0.25, state=np.array([3.0, 2.0, 5.0]), volume=2.0, time=1.0, divided=1, dead=-1)
     for c2 in (pickle.loads(pickle.dumps(cs)), copy.deepcopy(cs)):
         ok = (c2.py_get_volume() == 2.0 and c2.py_get_time() == 1.0 and np.array_equal(c2.py_get_state(), cs.py_get_state())
@@ -266,6 +286,7 @@ TABLES = {}
 def run(ctx):
     warnings.filterwarnings("ignore")
     TABLES.update(pickle_tables.build_tables(common.REPO))
+    TABLES["__reduce__"] = pickle_tables.build_reduce_tables(common.REPO)
     rng = ctx.rng
     n = 40 if ctx.quick() else 800
     for i in range(n):
